@@ -3,6 +3,8 @@ import PW.Proofs.SpecLemmas
 import PW.EinsumGen
 import PW.Proofs.TraceOut
 import PW.Proofs.MeasureOrder
+import PW.Proofs.MeasureNoSignal
+import PW.Proofs.NoSignalN
 /-!
 # C04 — measurement outcomes follow the Born rule
 
@@ -59,6 +61,26 @@ theorem measurement_order_does_not_matter (dims : List Nat) (p₁ p₂ o₁ o₂
 /-- non-vacuity: a two-outcome subsystem with weight on both outcomes -/
 example : prob [2] 0 (fun idx => if idx = [0, 0] ∨ idx = [1, 1] then (1 : Int) else 0) 1 = 1 := by decide
 
+open scoped ComplexOrder in
+/-- **Born weights are non-negative** (Mathlib matrices; measured part `a`, everything else `b`): for a
+positive semidefinite joint state the weight of every outcome — the trace of the collapsed state — is
+≥ 0; with `born_weights_sum_to_trace` the vector handed to the sampler is a probability distribution. -/
+theorem born_weights_nonnegative {a b : Nat} (o : Nat) (ho : o < a) (ρ : Tensor ℂ)
+    (hρ : (PW.Adequacy.toMatrix (a := a) (b := b) ρ).PosSemidef) :
+    0 ≤ Matrix.trace (PW.Adequacy.toMatrix (a := a) (b := b) (projectOn [a, b] 0 o ρ)) :=
+  PW.Adequacy.born_weight_nonneg o ho ρ hρ
+
+/-- **what is done elsewhere does not change the outcome distribution**: a unitary operation on the
+subsystem at position `q` leaves the Born weights of every other subsystem `p` as they were — every number
+of subsystems, every dimension list, every (entangled) joint state. -/
+theorem operation_elsewhere_keeps_outcome_distribution {R : Type} [CommRing R] [StarRing R]
+    (dims : List Nat) (p q : Nat) (hq : q < dims.length) (hne : q ≠ p) (U : Tensor R)
+    (hU : ∀ j < dimOf2 dims q, ∀ k < dimOf2 dims q,
+      ∑ i ∈ Finset.range (dimOf2 dims q), U [i, j] * PW.conj (U [i, k]) = if j = k then 1 else 0)
+    (ρ : Tensor R) (o : Nat) : prob dims p (applyOn dims [q] U ρ) o = prob dims p ρ o := by
+  unfold prob
+  exact reduceTo_applyOn_single dims [p] q hq (by simpa using hne) U hU ρ [o, o]
+
 end PW.Props.C04
 
 #print axioms PW.Props.C04.impossible_after_conditioning
@@ -69,3 +91,5 @@ end PW.Props.C04
 #print axioms PW.Props.C04.born_weights_sum_to_trace
 #print axioms PW.Props.C04.sequential_weight_is_joint_weight
 #print axioms PW.Props.C04.measurement_order_does_not_matter
+#print axioms PW.Props.C04.born_weights_nonnegative
+#print axioms PW.Props.C04.operation_elsewhere_keeps_outcome_distribution
